@@ -77,15 +77,51 @@ def _endian(b) -> str:
     return e() if callable(e) else e
 
 
-class Tracker:
-    """Builds argument buffers from JSON and remembers a deep copy of each."""
+def _overwrite(old, new) -> bool:
+    """Overwrite buffer ``old`` in place with the content of ``new`` (a caller re-using its buffer); False when not possible."""
+    if type(old) is not type(new):
+        return False
+    tn = type(old).__name__
+    try:
+        if tn == "bitarray":
+            if _endian(old) != _endian(new):
+                return False
+            old[:] = new
+        elif isinstance(old, bytearray) or isinstance(old, list):
+            old[:] = new
+        elif tn == "ndarray":
+            if old.shape != new.shape or old.dtype != new.dtype:
+                return False
+            old[...] = new
+        elif isinstance(old, dict):
+            old.clear()
+            old.update(new)
+        else:
+            return False
+    except (TypeError, ValueError, BufferError):
+        return False
+    return True
 
-    def __init__(self):
+
+class Tracker:
+    """Builds argument buffers from JSON and remembers a deep copy of each.  With ``reuse`` (the buffers of an earlier
+    invocation of the same entry) the i-th buffer is not created anew: the earlier object is overwritten in place."""
+
+    def __init__(self, reuse: Optional[List[Any]] = None):
         self.items: List[tuple] = []  # (name, object, copy)
+        self.reuse = reuse
+        self.reused = 0
 
     def track(self, obj, name: str = ""):
-        self.items.append((name or f"arg{len(self.items)}", obj, copy.deepcopy(obj)))
+        i = len(self.items)
+        if self.reuse is not None and i < len(self.reuse) and _overwrite(self.reuse[i], obj):
+            obj = self.reuse[i]
+            self.reused += 1
+        self.items.append((name or f"arg{i}", obj, copy.deepcopy(obj)))
         return obj
+
+    def buffers(self) -> List[Any]:
+        return [o for _, o, _ in self.items]
 
     def bits(self, s: str, endian: str = "big", name: str = ""):
         from bitarray import bitarray
@@ -238,27 +274,153 @@ def _serialise(o) -> Any:
 # executing calls (child side)
 
 
+def _is_buffer(o) -> bool:
+    tn = type(o).__name__
+    return isinstance(o, (bytearray, _array.array)) or tn in ("bitarray", "ndarray")
+
+
+def _scribble_buffer(o, k: int):
+    """In-place damage of one buffer a caller owns (what a channel simulator / buffer-recycling caller does)."""
+    try:
+        tn = type(o).__name__
+        if tn == "bitarray":
+            o.invert()
+            if k % 3 == 1 and len(o):
+                del o[-1:]
+            elif k % 3 == 2:
+                o.extend("101")
+        elif isinstance(o, bytearray):
+            for i in range(len(o)):
+                o[i] ^= 0xFF
+            if k % 3 == 2:
+                o.append(0x5A)
+        elif tn == "ndarray":
+            if o.dtype.kind in "iub":
+                o[...] = (o + 1) % 2
+            else:
+                o.fill(0)
+        elif isinstance(o, _array.array):
+            for i in range(len(o)):
+                o[i] = 0 if o[i] else 1
+    except (TypeError, ValueError, BufferError):
+        pass  # immutable (frozenbitarray, read-only array): nothing a caller could damage
+
+
+def _scribble_container(o):
+    try:
+        if isinstance(o, list):
+            o.append("scribble")
+        elif isinstance(o, dict):
+            o["scribble"] = "scribble"
+        elif isinstance(o, set):
+            o.add("scribble")
+    except (TypeError, ValueError):
+        pass
+
+
+def scribble(roots: List[Any]) -> int:
+    """Mutate in place everything mutable a caller got hold of: every buffer (bitarray, bytearray, numpy, array) reachable
+    from the roots; and the lists / dicts / sets that are a root, an element of a root container or a direct attribute of a
+    returned library object (append / add a key).  Returns the number of objects touched."""
+    seen: set = set()
+    count = [0]
+
+    def buffers_only(o, depth):
+        if id(o) in seen or depth > MAX_DEPTH or o is None or isinstance(o, (bool, int, float, str, bytes, enum.Enum)):
+            return
+        seen.add(id(o))
+        if _is_buffer(o):
+            _scribble_buffer(o, count[0])
+            count[0] += 1
+        elif isinstance(o, (tuple, list, set, frozenset)):
+            for v in list(o):
+                buffers_only(v, depth + 1)
+        elif isinstance(o, dict):
+            for v in list(o.values()):
+                buffers_only(v, depth + 1)
+        elif _is_lib_obj(o) or _is_kaitai(o):
+            d = getattr(o, "__dict__", None)
+            if isinstance(d, dict):
+                kaitai = _is_kaitai(o)
+                for k, v in list(d.items()):
+                    if not (kaitai and k.startswith("_")):
+                        buffers_only(v, depth + 1)
+
+    def container(o):
+        if isinstance(o, (list, dict, set)) and ("c", id(o)) not in seen:
+            seen.add(("c", id(o)))
+            _scribble_container(o)
+            count[0] += 1
+
+    def top(o, depth=0):
+        if isinstance(o, (tuple, list)) and depth < 3:
+            for v in list(o):
+                top(v, depth + 1)
+            buffers_only(o, 0)
+            container(o)
+        elif isinstance(o, dict) and depth < 3:
+            for v in list(o.values()):
+                top(v, depth + 1)
+            buffers_only(o, 0)
+            container(o)
+        elif (_is_lib_obj(o) or _is_kaitai(o)) and not isinstance(o, enum.Enum):
+            d = getattr(o, "__dict__", None)
+            buffers_only(o, 0)
+            if isinstance(d, dict):
+                for k, v in list(d.items()):
+                    if not k.startswith("_"):
+                        container(v)
+        else:
+            buffers_only(o, 0)
+
+    for r in roots:
+        top(r)
+    return count[0]
+
+
+def _run_one(e: Entry, a: dict, reuse: Optional[List[Any]] = None):
+    T = Tracker(reuse)
+    rec: Dict[str, Any] = {}
+    res = None
+    try:
+        res = e.fn(a, T)
+    except Exception as ex:
+        if not lib_raised(ex):
+            raise HarnessError(f"entry {e.id} failed outside the library with args {a!r}:\n{traceback.format_exc()}")
+        rec["raised"] = [type(ex).__name__, _san(str(ex))[:400]]
+    mut = T.changed()
+    if "raised" not in rec:
+        rec["ok"] = obs(res, top=True)
+    if mut and not (e.inplace and e.inplace(a)):
+        rec["mut"] = mut
+    return rec, res, T
+
+
 def run_calls_here(calls: List[dict]) -> List[dict]:
+    """Steps: a plain call {e, a}; {op: "scribble_repeat", e, a}: call, damage in place everything the caller got hold of
+    (result and arguments), call again with arguments rebuilt from JSON -> {"multi": [first, second]}; {op: "reuse", e, a, b}:
+    call with a, overwrite the same argument buffers in place with b's values and call again, then call with a fresh copy of a
+    -> {"multi": [a, b_in_reused_buffers, a_again]}."""
     out = []
     for c in calls:
         e = CATALOGUE.get(c["e"])
         if e is None:
             raise HarnessError(f"unknown catalogue entry {c['e']}")
-        T = Tracker()
-        rec: Dict[str, Any] = {}
-        try:
-            res = e.fn(c["a"], T)
-        except Exception as ex:
-            if not lib_raised(ex):
-                raise HarnessError(f"entry {e.id} failed outside the library with args {c['a']!r}:\n{traceback.format_exc()}")
-            rec["raised"] = [type(ex).__name__, _san(str(ex))[:400]]
-            res = None
-        mut = T.changed()
-        if "raised" not in rec:
-            rec["ok"] = obs(res, top=True)
-        if mut and not (e.inplace and e.inplace(c["a"])):
-            rec["mut"] = mut
-        out.append(rec)
+        op = c.get("op")
+        if not op:
+            out.append(_run_one(e, c["a"])[0])
+        elif op == "scribble_repeat":
+            r1, res, T = _run_one(e, c["a"])
+            n = scribble([res] + T.buffers())
+            r2, _, _ = _run_one(e, c["a"])
+            out.append({"multi": [r1, r2], "touched": n})
+        elif op == "reuse":
+            r1, res1, T1 = _run_one(e, c["a"])
+            r2, res2, T2 = _run_one(e, c["b"], reuse=T1.buffers())
+            r3, _, _ = _run_one(e, c["a"])
+            out.append({"multi": [r1, r2, r3], "touched": T2.reused})
+        else:
+            raise HarnessError(f"unknown step op {op!r}")
     return out
 
 
@@ -502,6 +664,10 @@ class Spec:
     def strat(self):
         raise NotImplementedError
 
+    def modes(self) -> List["Spec"]:
+        """The spec split by its mode switches (opcodes, variants, lengths): each returned spec generates one shape only."""
+        return [self]
+
     def canon(self, rng, k: int):
         """k-th canonical value (k = 0, 1: the regular shape, two different values; k >= 2: an alternative shape)."""
         raise NotImplementedError
@@ -527,6 +693,9 @@ class Bits(Spec):
         L = self.n if (k < 2 or not self.alts) else self.alts[(k - 2) % len(self.alts)]
         return _fmt_bits(rng.getrandbits(L) if L else 0, L)
 
+    def modes(self):
+        return [Bits(self.n)] + [Bits(a) for a in self.alts]
+
 
 class Hex(Spec):
     """hex string of n bytes, sometimes one of the ``alts`` lengths."""
@@ -543,6 +712,9 @@ class Hex(Spec):
     def canon(self, rng, k):
         L = self.n if (k < 2 or not self.alts) else self.alts[(k - 2) % len(self.alts)]
         return bytes(rng.getrandbits(8) for _ in range(L)).hex()
+
+    def modes(self):
+        return [Hex(self.n)] + [Hex(a) for a in self.alts]
 
 
 class HexVar(Spec):
@@ -644,6 +816,15 @@ class Vec(Spec):
             v = self._mut()(v, "flip", rng.randrange(4096), rng.randrange(1, 256))
         return v
 
+    def modes(self):
+        # one mode per captured vector; its second variant is the same vector with one flipped bit / byte in the second half
+        out = []
+        for v in self.vectors:
+            n = len(v)
+            alt = self._mut()(v, "flip", n // 2 + (n // 2) // 3 if self.is_bits else (n // 2) // 2 + (n // 2) // 3, 0x01) if n else v
+            out.append(Seq([v, alt]))
+        return out
+
 
 class Int(Spec):
     def __init__(self, lo: int, hi: int):
@@ -672,6 +853,10 @@ class Choice(Spec):
         return self.values[0] if k < 2 else self.values[1 % len(self.values)] if k == 2 else rng.choice(self.values)
 
 
+    def modes(self):
+        return [Const(v) for v in self.values]
+
+
 class Flag(Choice):
     def __init__(self):
         super().__init__([False, True])
@@ -690,9 +875,57 @@ class Const(Spec):
         return self.v
 
 
+class Seq(Spec):
+    """fixed sequence of canonical values (k-th variant = k-th value, cyclically); generated like a Choice"""
+
+    def __init__(self, values):
+        self.values = list(values)
+
+    def strat(self):
+        from hypothesis import strategies as st
+
+        return st.sampled_from(self.values)
+
+    def canon(self, rng, k):
+        return self.values[k % len(self.values)]
+
+
+class Map(Spec):
+    """a spec post-processed by a pure function (frame builders: length and checksum fields)"""
+
+    def __init__(self, spec: Spec, fn: Callable[[Any], Any]):
+        self.spec, self.fn = spec, fn
+
+    def strat(self):
+        return self.spec.strat().map(self.fn)
+
+    def canon(self, rng, k):
+        return self.fn(self.spec.canon(rng, k))
+
+    def modes(self):
+        return [Map(m, self.fn) for m in self.spec.modes()]
+
+
+def _each_choice(named: Dict[Any, Spec]) -> List[Dict[Any, Spec]]:
+    """each-choice combination of the modes of several specs: the all-first combination, then every other mode of every
+    spec with the first mode of the others (linear, not the product)."""
+    ms = {n: s.modes() for n, s in named.items()}
+    base = {n: m[0] for n, m in ms.items()}
+    out = [base]
+    for n, m in ms.items():
+        for alt in m[1:]:
+            d = dict(base)
+            d[n] = alt
+            out.append(d)
+    return out
+
+
 class OneOf(Spec):
     def __init__(self, *specs):
         self.specs = specs
+
+    def modes(self):
+        return [m for s in self.specs for m in s.modes()]
 
     def strat(self):
         from hypothesis import strategies as st
@@ -725,6 +958,9 @@ class Cat(Spec):
     def __init__(self, *specs):
         self.specs = specs
 
+    def modes(self):
+        return [Cat(*[d[i] for i in range(len(self.specs))]) for d in _each_choice(dict(enumerate(self.specs)))]
+
     def strat(self):
         from hypothesis import strategies as st
 
@@ -738,6 +974,9 @@ class Rec(Spec):
     def __init__(self, **fields):
         self.fields = fields
 
+    def modes(self):
+        return [Rec(**d) for d in _each_choice(self.fields)]
+
     def strat(self):
         from hypothesis import strategies as st
 
@@ -745,6 +984,28 @@ class Rec(Spec):
 
     def canon(self, rng, k):
         return {n: s.canon(rng, k) for n, s in self.fields.items()}
+
+
+def mode_families(e: Entry, cap: int = 400) -> List[List[dict]]:
+    """For every mode of the entry (each-choice over the opcode / variant / length switches of its argument specs) two calls
+    of the same shape with different data.  Deterministic, independent of VERIF_SEED."""
+    import random
+
+    fams, seen = [], set()
+    for fi, spec_dict in enumerate(_each_choice(e.args)):
+        fam = []
+        for k in (0, 1):
+            rng = random.Random(f"C19/family/{e.id}/{fi}/{k}")
+            a = {n: s.canon(rng, k) for n, s in spec_dict.items()}
+            key = json.dumps(a, sort_keys=True)
+            if key not in seen:
+                seen.add(key)
+                fam.append({"e": e.id, "a": a})
+        if fam:
+            fams.append(fam)
+        if len(fams) >= cap:
+            break
+    return fams
 
 
 def args_strategy(e: Entry):
